@@ -1315,6 +1315,15 @@ impl<'a> CompilerState<'a> {
                                         start,
                                     ));
                                 }
+                                // cctmp is the compiler's scratch byte and cctmp<n> its string literals
+                                if let Some(n) = name.strip_prefix("cctmp") {
+                                    if n.chars().all(|c| c.is_ascii_digit()) {
+                                        return Err(self.syntax_error(
+                                            &format!("Variable name {} is reserved", &name),
+                                            start,
+                                        ));
+                                    }
+                                }
                             }
                             Rule::array_spec => {
                                 start = p.as_span().start();
@@ -1828,7 +1837,8 @@ impl<'a> CompilerState<'a> {
                                             self.current_function,
                                             self.in_scope_variables.len()
                                         );
-                                        if self.variables.get(&name).is_some() {
+                                        // Until the name is a new one (x_0 may be a local too)
+                                        while self.variables.get(&name).is_some() {
                                             name = format!(
                                                 "{}_{}_{shortname}_{}",
                                                 self.current_function,
